@@ -121,6 +121,9 @@ def catalogue(ctx):
     # remote crash
     S.append(("kill-remote", {}, {}, [c, op("A", "q1", mode="hold"), {"op": "kill", "n": "B"}, qs, rd("A")]))
     S.append(("kill-remote-b", Q3, Q3, [cb, {"op": "kill", "n": "B"}, qs, rd("A")]))
+    # the remote crashes the moment it has the connection: shortest-lived established connections
+    S.append(("kill-on-est", {}, {}, [dict(c, kill_on_est="B"), qs, rd("A")]))
+    S.append(("kill-on-est-b", Q3, Q3, [dict(cb, kill_on_est="B"), qs, rd("A")]))
     # force close, by either protocol, either direction, with a held substream of another protocol
     S.append(("force-close", {}, {}, [c, op("A", "q1", mode="hold"), {"op": "force_close", "n": "A", "q": "q2"}, qs, rd("A"), op("A", "q2"), cut, qs]))
     S.append(("force-close-b", Q3, Q3, [cb, op("B", "q3", mode="hold"), {"op": "force_close", "n": "A", "q": "q1"}, qs, rd("B"), cut, qs]))
